@@ -317,6 +317,10 @@ def observers(ctx):
             nret += 1
             if isinstance(v, Lit) and v.v == 0:
                 continue
+            if '=[]' in label:
+                # by definition the amount of no substance is 0 in every well (only None asks for the total)
+                bad.append(f"[{label}] an empty collection of substances gives {v!r} instead of 0")
+                continue
             if not isinstance(v, Num):
                 bad.append(f"[{label}] returns {v!r}")
                 continue
